@@ -205,17 +205,19 @@ def run(ctx):
         ctx.ob("R3", "error=>continue", ok, "after a walk error the next event must be fetching the next entry (siblings and later starting points are not dropped); found %s" % errs, fn=pf, how="event graph")
     fwb = [(b, t) for b, t in pf.calls() if C.walk_role(t) == "from_walkdir"]
     for b, t in fwb:
-        # Err target block
-        tgt = t.target
+        # Err target block: the switch on the discriminant of the Result that from_walkdir produced — directly, or after
+        # it went through Result::map / a join with the held-back starting point
         sw = None
-        cur = tgt
-        for _ in range(4):
-            if pf.blocks[cur].term.k == "switch":
-                sw = cur
-                break
-            if pf.blocks[cur].term.k == "goto":
-                cur = pf.blocks[cur].term.target
-            else:
+        for cand in sorted(pf.reach_from([t.target]) if t.target is not None else []):
+            if pf.blocks[cand].term.k != "switch" or not (prim.discr_type_of_switch(pf, cand) or "").startswith("std::result::Result"):
+                continue
+            pr = prim.expand_single_def_vars(pf, prim.switch_pred(pf, cand))
+            srcs = [pr]
+            for x in pr.walk():
+                if x.k == "var" and x.a.get("local") is not None:
+                    srcs += [o for _, o in prim.alternatives(pf, x.a["local"])]
+            if any(c.a["callee"].endswith("WalkEntry::from_walkdir") for o_ in srcs for c in o_.call_nodes()):
+                sw = cand
                 break
         err_bb = None
         if sw is not None:
